@@ -546,6 +546,89 @@ func runC16(c *Check) {
 	}
 	c.MinInstances("C16-R5", 1)
 
+	// ---- R7: a failed RPC is reported as that failure. On the error edge of the transport call,
+	// every return of a client method hands back the transport error itself (possibly wrapped) or
+	// the restored context.Canceled — never another sentinel ("not found") and never nil: "the call
+	// failed" must not turn into "nothing at this height", which scans move past.
+	c.Doc("C16-R7", "ER: in every client method, every return reachable from the error edge of the RPC returns that error (or the restored context.Canceled), never a different sentinel and never nil.")
+	{
+		n7 := 0
+		for _, m := range []string{"Get", "GetIDs", "GetProofs", "Commit", "Validate", "Submit", "SubmitWithOptions"} {
+			fn := api(m)
+			if fn == nil {
+				continue
+			}
+			g := BuildECFG(dp, fn, ExpandOpts{MaxDepth: 1})
+			c.NoteGraph(g)
+			mm := m
+			isRPC := func(t *Term) bool {
+				if t.Op != "dyncall" && t.Op != "call" {
+					return false
+				}
+				return strings.Contains(t.String(), ".Internal."+mm+",") || strings.Contains(t.String(), ".Internal."+mm+")") || strings.Contains(t.Name, "Internal."+mm)
+			}
+			var failed []*Node
+			for _, e := range g.Select(ErrNotNilEdge(isRPC)) {
+				// only the test of the error result (not of the value result)
+				t, _ := CondTerm(e)
+				isErr := false
+				t.Walk(func(x *Term) bool {
+					if x.Op == "extract" && x.V != nil && x.V.Type().String() == "error" {
+						isErr = true
+					}
+					if (x.Op == "dyncall" || x.Op == "call") && x.V != nil && x.V.Type().String() == "error" {
+						isErr = true
+					}
+					return true
+				})
+				if isErr {
+					failed = append(failed, e)
+				}
+			}
+			if len(failed) == 0 {
+				continue
+			}
+			n7++
+			reach := g.Reachable(failed, nil)
+			var bad []string
+			for _, x := range g.Exits {
+				if !reach[x] || x.Ctx.Depth != 0 {
+					continue
+				}
+				ret := x.In.(*ssa.Return)
+				et := TermOf(spilledResult(ret, len(ret.Results)-1), x.Ctx)
+				for _, leaf := range flattenPhi(et) {
+					s := leaf.String()
+					ok := false
+					switch {
+					case leaf.Op == "global" && leaf.Name == "context.Canceled":
+						ok = true
+					case strings.Contains(s, ".Internal."+mm):
+						ok = true // the transport error itself, or a wrap of it
+					}
+					if !ok {
+						// is this return really reachable with the error set? (the success path shares returns)
+						xx := x
+						if g.PathAvoiding(failed, func(y *Node) bool { return y == xx }, nil) != nil {
+							bad = append(bad, trunc(s, 50)+" @"+dp.InstrPos(x.In))
+						}
+					}
+				}
+			}
+			inst := "client." + m + " ⟂ rpc-failure-is-reported-as-that-failure"
+			if len(bad) == 0 {
+				c.OK("C16-R7", inst, fnName(fn), dp.Pos(fn.Pos()), "every return after a failed RPC hands back the transport error or the restored context.Canceled", true)
+			} else {
+				sort.Strings(bad)
+				c.Bad("C16-R7", inst, fnName(fn), dp.Pos(fn.Pos()), "after the RPC failed the method can return "+strings.Join(bad, "; ")+": a transport failure is then classified as something else (e.g. 'nothing at this height', which a scan moves past) instead of being retried", nil)
+			}
+		}
+		if n7 < 4 {
+			c.Unk("C16-R7", "client-methods", "", "", fmt.Sprintf("anchor lost: only %d client methods with a checked RPC error", n7))
+		}
+		c.MinInstances("C16-R7", 4)
+	}
+
 	// ---- R6: transport limits admit everything the client may send. Blobs travel base64-encoded
 	// inside JSON (4/3 of their raw size plus the envelope); a request-size cap on the server (or a
 	// response cap on the client) below 4/3 of the client's batch limit rejects batches the same DA
